@@ -126,6 +126,14 @@ type _LexerStateMachine struct {
 	state     int
 	mode      []uint32
 	modeStack _Stack[[]uint32]
+
+	// pending is true while runes consumed since the last accept or discard
+	// (including runes accumulated by fragments) have been neither emitted nor
+	// discarded.
+	pending bool
+	// matched is true if a rune was consumed since the last accept, discard or
+	// accumulate, that is, if the current match is not empty.
+	matched bool
 }
 
 func (l *_LexerStateMachine) PushRune(r rune) int {
@@ -171,6 +179,8 @@ func (l *_LexerStateMachine) PushRune(r rune) int {
 			switch {
 			case r >= rune(mode[k]) && r <= rune(mode[k+1]):
 				l.state = int(mode[k+2])
+				l.pending = true
+				l.matched = true
 				return _lexerConsume
 			case r < rune(mode[k]):
 				e = j
@@ -184,6 +194,24 @@ func (l *_LexerStateMachine) PushRune(r rune) int {
 
 	// Move 'i' to the beginning of the actions section.
 	i += gotoN * 3
+
+	if !l.matched {
+		// The match is empty. Acting on it consumes nothing, so it is only
+		// allowed when it pops the mode (and pushes none): every such step
+		// shrinks the mode stack, which rules out going on forever.
+		pops := false
+		for j := i; j < end; j += 2 {
+			if mode[j] == 2 {
+				pops = true
+			} else if mode[j] == 1 {
+				pops = false
+				break
+			}
+		}
+		if !pops {
+			i = end
+		}
+	}
 
 	for ; i < end; i += 2 {
 		switch mode[i] {
@@ -200,17 +228,22 @@ func (l *_LexerStateMachine) PushRune(r rune) int {
 		case 3: // Accept
 			l.token = int(mode[i+1])
 			l.state = 0
+			l.pending = false
+			l.matched = false
 			return _lexerAccept
 		case 4: // Discard
 			l.state = 0
+			l.pending = false
+			l.matched = false
 			return _lexerDiscard
 		case 5: // Accum
 			l.state = 0
+			l.matched = false
 			return _lexerTryAgain
 		}
 	}
 
-	if l.state == 0 && r == -1 {
+	if !l.pending && r == -1 {
 		return _lexerEOF
 	}
 
@@ -220,6 +253,8 @@ func (l *_LexerStateMachine) PushRune(r rune) int {
 func (l *_LexerStateMachine) Reset() {
 	l.mode = nil
 	l.state = 0
+	l.pending = false
+	l.matched = false
 }
 
 func (l *_LexerStateMachine) Token() int {
